@@ -32,6 +32,7 @@ from ..lowlevel import _utils, constants
 from ..lowlevel.api_async.backend.abc import AsyncBackend, CancelScope, ILock
 from ..lowlevel.api_async.backend.utils import BuiltinAsyncBackendLiteral, ensure_backend
 from ..lowlevel.api_async.endpoints.datagram import AsyncDatagramEndpoint
+from ..lowlevel.api_async.transports.utils import aclose_forcefully
 from ..lowlevel.api_async.transports.abc import AsyncDatagramTransport
 from ..lowlevel.socket import INETSocketAttribute, SocketAddress, SocketProxy, new_socket_address
 from ..protocol import DatagramProtocol
@@ -237,10 +238,19 @@ class AsyncUDPNetworkClient(AbstractAsyncNetworkClient[_T_SentPacket, _T_Receive
         if self.__socket_connector is not None:
             self.__socket_connector.scope.cancel()
             self.__socket_connector = None
-        async with self.__send_lock:
+        try:
+            await self.__send_lock.acquire()
+        except self.__backend.get_cancelled_exc_class():
+            # Cancelled while waiting for a pending send_packet() to finish: close abruptly, as documented.
+            if self.__endpoint is not None:
+                await aclose_forcefully(self.__endpoint)
+            raise
+        try:
             if self.__endpoint is None:
                 return
             await self.__endpoint.aclose()
+        finally:
+            self.__send_lock.release()
 
     async def send_packet(self, packet: _T_SentPacket) -> None:
         """
